@@ -7,6 +7,7 @@ CONSTANTS
   PolA = "min"
   PolQ = "min"
   PolW = "min"
+  MwEnabled = TRUE
   Variant = "asWritten"
   KeepRecords = TRUE
   GateSet = {"started", "hpre", "hpost", "readcode"}
